@@ -299,8 +299,10 @@ def gen_base(rng, pairing):
     if pairing == "gaussian-fock":
         # large cutoffs on few modes keep the ledger bound small (1e-6..1e-3), so that small effects
         # (a dropped conjugation acting on a displaced mean, ...) are not masked by the bound
-        choices = [(1, 12), (1, 9), (2, 10), (2, 8), (3, 7), (3, 6), (1, 3), (2, 4), (1, 1), (2, 2)]
-        d, cutoff = choices[int(rng.choice(len(choices), p=[0.16, 0.1, 0.2, 0.14, 0.12, 0.08, 0.06, 0.06, 0.04, 0.04]))]
+        # (the amplitude bound is the square root of the leaked norm, so it only becomes tight - 1e-5 and
+        # below - when the leak itself is ~1e-10: cutoffs 14-20 for r <= 0.2, |alpha| <= 0.4)
+        choices = [(1, 20), (1, 12), (2, 16), (2, 14), (2, 10), (3, 9), (3, 7), (1, 3), (2, 4), (1, 1), (2, 2)]
+        d, cutoff = choices[int(rng.choice(len(choices), p=[0.08, 0.06, 0.24, 0.2, 0.1, 0.12, 0.06, 0.04, 0.04, 0.03, 0.03]))]
         pool = list(G.PASSIVE_GATES) + [g for g in G.ACTIVE_GATES if not g.startswith("Controlled")] + list(G.DISPLACEMENTS)
         n = int(rng.integers(1, 7))
         gates = []
